@@ -1,6 +1,9 @@
 package kafka
 
-import "math"
+import (
+	"hash/fnv"
+	"math"
+)
 
 // C13: partition balancers return offered partitions and match the reference hashes.
 
@@ -206,4 +209,28 @@ func VH_C13_HashArithmetic(which int) {
 		vhAssert(got == int((int32(sum)&0x7fffffff)%int32(n)), "refhash-arithmetic-matches-sarama")
 	}
 	vhReach("hash-arithmetic")
+}
+
+// A user-supplied, stateful Hasher (the standard library's FNV-1a, which is what the references use) serves two
+// consecutive messages with different keys through the same balancer: each partition must be the reference's for
+// that key alone - the balancer is a pure function of key and partition count whatever it hashed before.
+func VH_C13_CustomHasher(which, L int) {
+	k1, k2 := vhBytes("key1", L), vhBytes("key2", L)
+	parts := vhIota("partitions", 1, math.MaxInt32)
+	n := len(parts)
+	hasher := fnv.New32a()
+	if which == 0 {
+		b := &Hash{Hasher: hasher}
+		g1 := b.Balance(Message{Key: k1}, parts...)
+		g2 := b.Balance(Message{Key: k2}, parts...)
+		vhAssert(g1 == vrefSaramaHash(k1, n), "custom-hasher-hash-first-message")
+		vhAssert(g2 == vrefSaramaHash(k2, n), "custom-hasher-hash-second-message-independent-of-the-first")
+	} else {
+		b := &ReferenceHash{Hasher: hasher}
+		g1 := b.Balance(Message{Key: k1}, parts...)
+		g2 := b.Balance(Message{Key: k2}, parts...)
+		vhAssert(g1 == vrefSaramaReferenceHash(k1, n), "custom-hasher-refhash-first-message")
+		vhAssert(g2 == vrefSaramaReferenceHash(k2, n), "custom-hasher-refhash-second-message-independent-of-the-first")
+	}
+	vhReach("custom-hasher")
 }
